@@ -47,8 +47,22 @@ def _run_variant(args):
         shutil.rmtree(tmp, ignore_errors=True)
 
 
-def run(pid: str, repo: str, main_verdict: str, jobs: int = 16):
-    """main_verdict: 'pass' | 'violation' of the unmodified tree."""
+def _patch_files(patch_path):
+    out = set()
+    try:
+        for line in open(patch_path):
+            if line.startswith("+++ b/") or line.startswith("--- a/"):
+                out.add(line[6:].strip())
+    except OSError:
+        pass
+    return out
+
+
+def run(pid: str, repo: str, main_verdict: str, jobs: int = 16, consulted_files=None, others_sample: int = 6):
+    """main_verdict: 'pass' | 'violation' of the unmodified tree.
+    consulted_files: files the property is anchored in / whose functions the check interpreted.  Benign variants that
+    touch one of them are always replayed; of the remaining ones a fixed sample (first `others_sample` by name) is
+    replayed as a control (all of them with SA_SELFTEST_FULL=1)."""
     seeds = sorted(d for d in os.listdir(os.path.join(VERIF, "seeded")) if d.startswith(pid + "-")) \
         if os.path.isdir(os.path.join(VERIF, "seeded")) else []
     benign = sorted(os.listdir(os.path.join(VERIF, "benign"))) if os.path.isdir(os.path.join(VERIF, "benign")) else []
@@ -58,11 +72,22 @@ def run(pid: str, repo: str, main_verdict: str, jobs: int = 16):
         uncovered = {l.split()[0] for l in open(unc) if l.strip() and not l.startswith("#")}
     tasks = [(pid, repo, "breaking", os.path.join(VERIF, "seeded", d)) for d in seeds
              if os.path.exists(os.path.join(VERIF, "seeded", d, "patch.diff"))]
-    tasks += [(pid, repo, "benign", os.path.join(VERIF, "benign", d)) for d in benign
-              if os.path.exists(os.path.join(VERIF, "benign", d, "patch.diff"))]
+    relevant, others = [], []
+    for d in benign:
+        pth = os.path.join(VERIF, "benign", d, "patch.diff")
+        if not os.path.exists(pth):
+            continue
+        if consulted_files is None or os.environ.get("SA_SELFTEST_FULL") or (_patch_files(pth) & set(consulted_files)):
+            relevant.append(d)
+        else:
+            others.append(d)
+    chosen = relevant + others[:others_sample]
+    tasks += [(pid, repo, "benign", os.path.join(VERIF, "benign", d)) for d in chosen]
     with ThreadPoolExecutor(jobs) as ex:
         results = list(ex.map(_run_variant, tasks))
-    out = {"breaking": {"total": 0, "detected": 0, "skipped": 0, "declared_uncovered": 0, "missed": []},
+    out = {"selection": {"benign_catalogued": len(benign), "benign_touching_consulted_files": len(relevant), "control_sample": len(chosen) - len(relevant),
+                         "consulted_files": sorted(consulted_files or [])},
+           "breaking": {"total": 0, "detected": 0, "skipped": 0, "declared_uncovered": 0, "missed": []},
            "benign": {"total": 0, "same_verdict": 0, "skipped": 0, "alarms": []}, "variants": []}
     for kind, name, verdict, line in results:
         out["variants"].append({"kind": kind, "variant": name, "verdict": verdict, "first_report": line})
